@@ -537,3 +537,268 @@ Example C01_listed_hash_premises_satisfiable :
                      Rewrites.isort exsb_cfg ex_query_other /\
   (exists n, In n (names_to_hash exsb_pubsuf (host_of ex_query_other)) /\ In (exsb_sha n) exsb_db).
 Proof. exact ex_sb_premises. Qed.
+
+(** * Round 5: "protection on / off / paused" as a history
+    (Model/Protection.v: POST /control/protection with and without a
+    duration, protection_enabled in POST /control/dns_config, the clock as an
+    input, the lazy re-enable of UpdatedProtectionStatus with its goroutine) *)
+From AGH Require Import Model.Protection Proofs.Protection.
+Local Open Scope Z_scope.
+
+(** For every history of switches, clock readings (DNS requests, status
+    reads) and wake-ups of enableProtectionAfterPause whose instants do not
+    decrease and in which no switch lands between the start of that goroutine
+    and the moment it gets the lock, from any state that stands for a switch:
+    at every instant from the end of the history on, protection is in force
+    iff the LAST accepted switch says so: switched on (a pending pause is
+    cancelled), or paused until an instant that has been reached. *)
+Theorem C01_protection_follows_last_switch :
+  forall sw0 T0 s0 h t,
+  agrees sw0 T0 s0 -> ordered T0 h -> calm s0 h -> last_instant T0 h <= t ->
+  in_force t (run_now s0 h) = expected (last_switch sw0 h) t.
+Proof. exact protection_follows_last_switch. Qed.
+Print Assumptions C01_protection_follows_last_switch.
+
+(** The same with a premise on the history alone: the goroutine runs right
+    after the read that started it (what one administrator and any number of
+    clients produce unless a switch hits the goroutine's start-up window). *)
+Theorem C01_protection_follows_last_switch_prompt :
+  forall sw0 T0 s0 h t,
+  agrees sw0 T0 s0 -> pr_waking s0 = false -> ordered T0 h -> prompt h -> last_instant T0 h <= t ->
+  in_force t (run_now s0 h) = expected (last_switch sw0 h) t.
+Proof. exact protection_follows_last_switch_prompt. Qed.
+Print Assumptions C01_protection_follows_last_switch_prompt.
+
+(** An accepted {"enabled": true} (either endpoint) puts protection in force
+    for every later instant, whatever pause preceded it, until the next switch. *)
+Theorem C01_reenable_cancels_pause :
+  forall sw0 T0 s0 h o rest t,
+  agrees sw0 T0 s0 -> ordered T0 (h ++ o :: rest) -> calm s0 (h ++ o :: rest) ->
+  switch_of o = Some SwOn -> Forall (fun x => switch_of x = None) rest ->
+  last_instant T0 (h ++ o :: rest) <= t ->
+  in_force t (run_now s0 (h ++ o :: rest)) = true.
+Proof. exact reenable_cancels_pause. Qed.
+Print Assumptions C01_reenable_cancels_pause.
+
+Theorem C01_pause_in_force_from_deadline :
+  forall sw0 T0 s0 h o rest d t,
+  agrees sw0 T0 s0 -> ordered T0 (h ++ o :: rest) -> calm s0 (h ++ o :: rest) ->
+  switch_of o = Some (SwPause d) -> Forall (fun x => switch_of x = None) rest ->
+  last_instant T0 (h ++ o :: rest) <= t ->
+  in_force t (run_now s0 (h ++ o :: rest)) = (d <=? t).
+Proof. exact pause_in_force_from_deadline. Qed.
+Print Assumptions C01_pause_in_force_from_deadline.
+
+(** What a request reads (process.go: UpdatedProtectionStatus once per
+    request) is what the state machine yields: the [protection] input of the
+    pipeline model. *)
+Theorem C01_request_reads_protection_state :
+  forall c s now, protection_on (cfg_at c s now) = in_force now s.
+Proof. exact cfg_at_protection. Qed.
+Print Assumptions C01_request_reads_protection_state.
+
+(** C01 over the history: the last switch says "in force" and the other
+    premises of C01_blocked_is_local hold in the configuration the request
+    sees  ==>  answered locally with the synthetic answer, nothing upstream. *)
+Theorem C01_blocked_is_local_after_history :
+  forall allow_eng block_eng sb par ss srt c sw0 T0 s0 h t up q,
+  agrees sw0 T0 s0 -> ordered T0 h -> calm s0 h -> last_instant T0 h <= t ->
+  expected (last_switch sw0 h) t = true ->
+  (protection_on (cfg_after c s0 h t) = true -> blocked_by_spec allow_eng block_eng srt (cfg_after c s0 h t) q) ->
+  let c' := cfg_after c s0 h t in
+  let o := process allow_eng block_eng sb par ss srt c' up q in
+  o_calls o = [] /\
+  r_filtered (o_result o) = true /\ rule_reason (r_reason (o_result o)) /\
+  o_resp o = Some (synthetic c' (q_name q) (q_qtype q) (ips_from_rules (o_result o))) /\
+  o_qname o = q_name q.
+Proof. exact blocked_is_local_after_history. Qed.
+Print Assumptions C01_blocked_is_local_after_history.
+
+(** ... and while the last switch says "not in force" nothing is blocked. *)
+Theorem C01_nothing_blocked_while_switched_off :
+  forall allow_eng block_eng sb par ss srt c sw0 T0 s0 h t q res,
+  agrees sw0 T0 s0 -> ordered T0 h -> calm s0 h -> last_instant T0 h <= t ->
+  expected (last_switch sw0 h) t = false ->
+  verdict allow_eng block_eng sb par ss srt (cfg_after c s0 h t) q = Some res ->
+  r_filtered res = false /\
+  (r_reason res = NotFilteredNotFound \/ r_reason res = RewrittenLegacy \/
+   r_reason res = RewrittenAutoHosts \/ r_reason res = RewrittenRule).
+Proof. exact nothing_blocked_while_off. Qed.
+Print Assumptions C01_nothing_blocked_while_switched_off.
+
+(** The seeded handler (a request without a duration only stores the flag):
+    on, paused for an hour, switched on again after a second: off until the
+    old deadline, while the code as it is yields "in force". *)
+Theorem C01_reenable_keeps_deadline_refuted :
+  exists h t, prompt h /\ ordered 0 h /\ last_instant 0 h <= t /\ last_switch SwOn h = SwOn /\
+    in_force t (prot_run set_keeps_deadline conf_as_written (prot_init true None) h) = false /\
+    in_force t (run_now (prot_init true None) h) = true.
+Proof. exact reenable_keeps_deadline_refuted. Qed.
+Print Assumptions C01_reenable_keeps_deadline_refuted.
+
+(** dns_config's protection_enabled as it was before /repo 8ae46d5 (flag
+    only): "on" during a pause stays off, "off" during a pause comes back on
+    at the deadline. *)
+Theorem C01_dns_config_flag_only_refuted :
+  (exists h t, prompt h /\ ordered 0 h /\ last_instant 0 h <= t /\ last_switch SwOn h = SwOn /\
+     in_force t (prot_run set_as_written conf_flag_only (prot_init true None) h) = false /\
+     in_force t (run_now (prot_init true None) h) = true) /\
+  (exists h t, prompt h /\ ordered 0 h /\ last_instant 0 h <= t /\ last_switch SwOn h = SwOff /\
+     in_force t (prot_run set_as_written conf_flag_only (prot_init true None) h) = true /\
+     in_force t (run_now (prot_init true None) h) = false).
+Proof. exact conf_flag_only_refuted. Qed.
+Print Assumptions C01_dns_config_flag_only_refuted.
+
+(** Without the premise [calm] the statement does not hold of the code as it
+    is: a switch that lands after a request has started
+    enableProtectionAfterPause and before that goroutine holds the lock is
+    overridden (pause runs out, request, {"enabled": false}, goroutine:
+    protection on). *)
+Theorem C01_late_wake_overrides_switch_refuted : ~ follows_last_switch_in_any_interleaving_statement.
+Proof. exact late_wake_overrides_switch_refuted. Qed.
+Print Assumptions C01_late_wake_overrides_switch_refuted.
+
+Example C01_protection_premises_satisfiable :
+  agrees SwOn 0 (prot_init true None) /\
+  ordered 0 [PSet 0 false hour; PRead 1000; PWake; PConf true; PRead (2 * hour); PWake] /\
+  prompt [PSet 0 false hour; PRead 1000; PWake; PConf true; PRead (2 * hour); PWake] /\
+  last_switch SwOn [PSet 0 false hour; PRead 1000; PWake; PConf true; PRead (2 * hour); PWake] = SwOn /\
+  last_switch SwOn [PSet 0 false hour; PRead 1000; PWake] = SwPause hour /\
+  in_force 1000 (run_now (prot_init true None) [PSet 0 false hour]) = false /\
+  in_force (hour + 1) (run_now (prot_init true None) [PSet 0 false hour]) = true.
+Proof. exact premises_satisfiable. Qed.
+
+Example C01_blocked_premises_after_history :
+  forall m,
+  let h := [PSet 0 false hour; PRead 1000; PWake; PSet 2000 true 0] in
+  expected (last_switch SwOn h) 3000 = true /\
+  blocked_by_spec (match_request []) (match_request ex_block_rules) Rewrites.isort
+    (cfg_after (ex_cfg m) (prot_init true None) h 3000) ex_query.
+Proof. exact blocked_premises_after_history. Qed.
+
+(** * Round 5: the rule lists behind the refresh (sources that change and
+    fail between passes).  The refresh is property C15's model
+    (Model/Refresh.v), imported as it is; Model/PipelineRefresh.v adds the
+    step from the texts in force to the pipeline's engines. *)
+From AGH Require Model.Refresh Model.RuleListParser Proofs.Refresh Proofs.RefreshEngine.
+From AGH Require Model.PipelineRefresh Proofs.PipelineRefresh.
+Local Open Scope N_scope.
+
+(** refreshFiltersIntl reports "network error" iff, in an array it refreshed,
+    EVERY attempted list failed (and there was one): one failing source among
+    several is not a network error.  (The clause seeded change C01-I breaks.) *)
+Theorem C01_net_error_iff_whole_array_failed :
+  forall crc b a force due oc st,
+  Refresh.pass_net_error crc b a force due oc st
+  = (b && PipelineRefresh.all_failed crc (Refresh.r_block st) force due oc)
+    || (a && PipelineRefresh.all_failed crc (Refresh.r_allow st) force due oc).
+Proof. exact PipelineRefresh.pass_net_error_char. Qed.
+Print Assumptions C01_net_error_iff_whole_array_failed.
+
+(** A pass that is no network error and in which the source of an attempted
+    list brings a text with another checksum reports an update ... *)
+Theorem C01_new_text_is_reported :
+  forall crc b a force due oc st l,
+  Refresh.pass_net_error crc b a force due oc st = false ->
+  PipelineRefresh.attempted_in b a force due st l -> PipelineRefresh.brings_new crc (oc (Refresh.f_id l)) l ->
+  Refresh.pass_updated crc b a force due oc st <> 0.
+Proof. exact PipelineRefresh.pass_updated_pos. Qed.
+Print Assumptions C01_new_text_is_reported.
+
+(** ... hence (by C15_rebuilding_step_consistent's clause for passes,
+    [updating_pass_consistent]) rebuilds the engines from the stored files,
+    whatever the engines held before and whichever other sources failed. *)
+Theorem C01_partial_failure_pass_rebuilds :
+  forall crc b a force due oc st l,
+  (b && PipelineRefresh.all_failed crc (Refresh.r_block st) force due oc)
+    || (a && PipelineRefresh.all_failed crc (Refresh.r_allow st) force due oc) = false ->
+  PipelineRefresh.attempted_in b a force due st l -> PipelineRefresh.brings_new crc (oc (Refresh.f_id l)) l ->
+  Refresh.engine_consistent (Refresh.refresh crc b a force due oc st).
+Proof. exact PipelineRefresh.partial_failure_pass_consistent. Qed.
+Print Assumptions C01_partial_failure_pass_rebuilds.
+
+(** After such a pass every rule in the stored file of every enabled block
+    list is a rule of the block engine, every rule in the stored file of an
+    enabled allow list a rule of the allow engine ([rules_of]: urlfilter's
+    reading of a stored text, trusted). *)
+Theorem C01_refreshed_rule_in_force :
+  forall crc rules_of b a force due oc st user l0 l c r,
+  (b && PipelineRefresh.all_failed crc (Refresh.r_block st) force due oc)
+    || (a && PipelineRefresh.all_failed crc (Refresh.r_allow st) force due oc) = false ->
+  PipelineRefresh.attempted_in b a force due st l0 -> PipelineRefresh.brings_new crc (oc (Refresh.f_id l0)) l0 ->
+  let st' := Refresh.refresh crc b a force due oc st in
+  Refresh.f_enabled l = true -> Refresh.fget (Refresh.f_id l) (Refresh.r_files st') = Some c -> In r (rules_of c) ->
+  (In l (Refresh.r_block st') -> In r (PipelineRefresh.block_in_force rules_of user (Refresh.r_engine st'))) /\
+  (In l (Refresh.r_allow st') -> In r (PipelineRefresh.allow_in_force rules_of (Refresh.r_engine st'))).
+Proof. exact PipelineRefresh.refreshed_rule_in_force. Qed.
+Print Assumptions C01_refreshed_rule_in_force.
+
+(** ... and the query the stored rules block is answered locally. *)
+Theorem C01_blocked_by_refreshed_list_is_local :
+  forall crc rules_of sb par ss srt b a force due oc st user l0 c up q,
+  (b && PipelineRefresh.all_failed crc (Refresh.r_block st) force due oc)
+    || (a && PipelineRefresh.all_failed crc (Refresh.r_allow st) force due oc) = false ->
+  PipelineRefresh.attempted_in b a force due st l0 -> PipelineRefresh.brings_new crc (oc (Refresh.f_id l0)) l0 ->
+  let st' := Refresh.refresh crc b a force due oc st in
+  blocked_by_spec (match_request (PipelineRefresh.stored_rules rules_of (Refresh.r_allow st') (Refresh.r_files st')))
+                  (match_request (user ++ PipelineRefresh.stored_rules rules_of (Refresh.r_block st') (Refresh.r_files st')))
+                  srt c q ->
+  let o := PipelineRefresh.ask_r rules_of sb par ss srt user st' c up q in
+  o_calls o = [] /\
+  r_filtered (o_result o) = true /\ rule_reason (r_reason (o_result o)) /\
+  o_resp o = Some (synthetic c (q_name q) (q_qtype q) (ips_from_rules (o_result o))) /\
+  o_qname o = q_name q.
+Proof. exact PipelineRefresh.blocked_by_refreshed_list_is_local. Qed.
+Print Assumptions C01_blocked_by_refreshed_list_is_local.
+
+(** For every history of passes (sources changing and failing in any pattern
+    that is no network error), set_url switches and rebuilds, from a state
+    whose engines are in step with the files, then a query: the verdict is
+    that of the rules in the stored files of the lists enabled at that
+    moment. *)
+Theorem C01_verdict_by_stored_files_after_history :
+  forall crc rules_of sb par ss srt h st user c up q,
+  Refresh.engine_consistent st -> PipelineRefresh.no_net_error crc h st ->
+  let st' := PipelineRefresh.rop_run crc st h in
+  PipelineRefresh.ask_r rules_of sb par ss srt user st' c up q =
+  process (match_request (PipelineRefresh.stored_rules rules_of (Refresh.r_allow st') (Refresh.r_files st')))
+          (match_request (user ++ PipelineRefresh.stored_rules rules_of (Refresh.r_block st') (Refresh.r_files st')))
+          sb par ss srt c up q.
+Proof. exact PipelineRefresh.history_rules_in_force. Qed.
+Print Assumptions C01_verdict_by_stored_files_after_history.
+
+(** After ANY history (network errors included, engines behind the files):
+    a pass that is none and in which some source brings a new text puts the
+    stored files in force again. *)
+Theorem C01_updating_pass_heals_any_history :
+  forall crc rules_of sb par ss srt h st b a force oc user l0 c up q,
+  let s := PipelineRefresh.rop_run crc st h in
+  (b && PipelineRefresh.all_failed crc (Refresh.r_block s) force PipelineRefresh.all_due oc)
+    || (a && PipelineRefresh.all_failed crc (Refresh.r_allow s) force PipelineRefresh.all_due oc) = false ->
+  PipelineRefresh.attempted_in b a force PipelineRefresh.all_due s l0 ->
+  PipelineRefresh.brings_new crc (oc (Refresh.f_id l0)) l0 ->
+  let st' := PipelineRefresh.rop_run crc st (h ++ [PipelineRefresh.RPass b a force oc]) in
+  PipelineRefresh.ask_r rules_of sb par ss srt user st' c up q =
+  process (match_request (PipelineRefresh.stored_rules rules_of (Refresh.r_allow st') (Refresh.r_files st')))
+          (match_request (user ++ PipelineRefresh.stored_rules rules_of (Refresh.r_block st') (Refresh.r_files st')))
+          sb par ss srt c up q.
+Proof. exact PipelineRefresh.history_then_updating_pass. Qed.
+Print Assumptions C01_updating_pass_heals_any_history.
+
+(** The seeded reading "a pass with a failing source leaves the engines as
+    they were" does not hold of the model (one source failing, the other
+    bringing a new text: the engines hold the new text afterwards). *)
+Theorem C01_any_failure_keeps_engine_refuted : ~ PipelineRefresh.any_failure_keeps_engine_statement.
+Proof. exact PipelineRefresh.any_failure_keeps_engine_refuted. Qed.
+Print Assumptions C01_any_failure_keeps_engine_refuted.
+
+Example C01_partial_failure_premises_satisfiable :
+  Refresh.engine_consistent PipelineRefresh.RX.st0 /\
+  (true && PipelineRefresh.all_failed RuleListParser.crc32_update (Refresh.r_block PipelineRefresh.RX.st0) true PipelineRefresh.all_due PipelineRefresh.RX.oc1) ||
+    (false && PipelineRefresh.all_failed RuleListParser.crc32_update (Refresh.r_allow PipelineRefresh.RX.st0) true PipelineRefresh.all_due PipelineRefresh.RX.oc1) = false /\
+  PipelineRefresh.attempted_in true false true PipelineRefresh.all_due PipelineRefresh.RX.st0 PipelineRefresh.RX.l1 /\
+  PipelineRefresh.brings_new RuleListParser.crc32_update (PipelineRefresh.RX.oc1 (Refresh.f_id PipelineRefresh.RX.l1)) PipelineRefresh.RX.l1 /\
+  PipelineRefresh.failsb RuleListParser.crc32_update (PipelineRefresh.RX.oc1 2) = true /\
+  Refresh.fget 1 (Refresh.r_files PipelineRefresh.RX.st1) = Some PipelineRefresh.RX.t_ax /\
+  Refresh.e_block (Refresh.r_engine PipelineRefresh.RX.st1) = [(1, PipelineRefresh.RX.t_ax); (2, PipelineRefresh.RX.t_b)].
+Proof. exact PipelineRefresh.partial_failure_premises_satisfiable. Qed.
